@@ -158,15 +158,28 @@ def r2(fx):
     got = FuncVal(fx.fn('encoder', 'find_mode'), genv, it)(DataModel(False))
     yield ob('find_mode decides "alphanumeric" by consulting the pattern', got == modes(fx)['alphanumeric'] and len(rec) == 1, fx.fn('encoder', 'find_mode'),
              got=(got, rec), want='alphanumeric after one consultation')
+    # make_segment: the mode is detected on the bytes data_to_bytes returns for the content (not on the text)
     ms = fx.fn('encoder', 'make_segment')
-    calls = [c for c in src.calls_in(ms, 'find_mode')]
-    c = single(calls, 'find_mode call in make_segment')
-    tg = nf.unpack_targets(ms, lambda x: src.call_name(x) == 'data_to_bytes')
-    okb = tg is not None and len(tg) == 3 and tg[0] is not None and pat.match(c, f'find_mode({tg[0]})') is not None
-    d2b = fx.fn('encoder', 'data_to_bytes')
-    rets = [s for s in ast.walk(d2b) if isinstance(s, ast.Return)]
-    yield ob('find_mode is applied to the bytes returned by data_to_bytes', okb and len(rets) == 2, c, got=ast.unparse(c),
-             want='find_mode(<first element of data_to_bytes(data, encoding)>)')
+    marker = DataModel(False)
+    seen = []
+
+    def d2b(data, encoding):
+        seen.append(('data_to_bytes', data, encoding))
+        return marker, 4, encoding or 'iso-8859-1'
+
+    def fm(data):
+        seen.append(('find_mode', data))
+        return modes(fx)['byte']
+    it3 = Interp()
+    genv3 = encoder_env(fx.forest, it3, data_to_bytes=d2b, find_mode=fm)
+    try:
+        FuncVal(ms, genv3, it3)('<text>', None, '<enc>')
+    except (PyRaise, Unknown):
+        pass        # what happens after the detection (packing a model object) is not the point here
+    fms = [x for x in seen if x[0] == 'find_mode']
+    okb = seen[:1] == [('data_to_bytes', '<text>', '<enc>')] and len(fms) == 1 and fms[0][1] is marker
+    yield ob('find_mode is applied to the bytes returned by data_to_bytes', okb, ms, got=[(x[0], 'the bytes' if x[1] is marker else x[1]) for x in seen],
+             want='data_to_bytes(content, encoding), then find_mode(<the bytes it returned>)')
 
 
 @rule('C07', 'R3', 2, 'is_kanji accepts exactly valid Shift JIS double-byte characters (truth table)')
